@@ -4,6 +4,8 @@ Sensitivity to a field is a reachability question: does the field flow into the 
 D1 field-coverage tables of every id, D2 generated processors have no identity in processor_ref,
 so the sweep definition must reach the pipeline ids through the preprocessor metadata,
 D3 positional discriminator and complete domain signatures.
+D1b the converter of the hashed parameter map keeps every value (no narrowing / folding / filtering),
+D2 also: one metadata entry per declared variable / expression, D5 no id is taken from a process-lifetime memo.
 
 Every rule is decided on the normal form of the anchored function (private helpers inlined, module
 constants substituted, single-assignment locals propagated, accumulate loops as comprehensions) and
@@ -342,14 +344,18 @@ def dict_literal_keys(d: ast.AST) -> Set[str]:
     return {k.value for k in d.keys if isinstance(k, ast.Constant)} if isinstance(d, ast.Dict) else set()
 
 
-def derives_whole(repo: Repo, rel: str, fn: ast.AST, e: Optional[ast.AST], roots: Set[str], _seen: Optional[Set[str]] = None) -> bool:
+def derives_whole(repo: Repo, rel: str, fn: ast.AST, e: Optional[ast.AST], roots: Set[str], _seen: Optional[Set[str]] = None, root_pred=None, key_filters: bool = True) -> bool:
     """*e* is one of the *roots* (parameters / locals standing for the complete object) or is computed from one
     by operations that keep every element: copies, sorting, re-listing, element-wise comprehensions without a
     condition (key filters of a mapping comprehension are judged by the dropped-key rule), functions of the same
-    module applied to the whole object.  Subscripts, `.get`, slices, filters make a *part* of the object."""
+    module applied to the whole object.  Subscripts, `.get`, slices, filters make a *part* of the object.
+    *root_pred(e)* recognises a root that is an expression (an attribute read); with *key_filters=False* no
+    element may be skipped at all."""
     _seen = _seen if _seen is not None else set()
     if e is None:
         return False
+    if root_pred is not None and root_pred(e):
+        return True
     if isinstance(e, ast.Name):
         if e.id in roots:
             return True
@@ -358,22 +364,22 @@ def derives_whole(repo: Repo, rel: str, fn: ast.AST, e: Optional[ast.AST], roots
         _seen.add(e.id)
         vals = assigned_value(fn, e.id)
         if vals and all(_is_empty_container(v) for v in vals):
-            return _accumulated_whole(repo, rel, fn, e.id, roots, _seen)
-        return bool(vals) and all(derives_whole(repo, rel, fn, v, roots, _seen) for v in vals)
+            return _accumulated_whole(repo, rel, fn, e.id, roots, _seen, root_pred, key_filters)
+        return bool(vals) and all(derives_whole(repo, rel, fn, v, roots, _seen, root_pred, key_filters) for v in vals)
     if isinstance(e, ast.IfExp):
-        return derives_whole(repo, rel, fn, e.body, roots, _seen) and derives_whole(repo, rel, fn, e.orelse, roots, _seen)
+        return derives_whole(repo, rel, fn, e.body, roots, _seen, root_pred, key_filters) and derives_whole(repo, rel, fn, e.orelse, roots, _seen, root_pred, key_filters)
     if isinstance(e, ast.JoinedStr):
-        return any(isinstance(v, ast.FormattedValue) and derives_whole(repo, rel, fn, v.value, roots, _seen) for v in e.values)
+        return any(isinstance(v, ast.FormattedValue) and derives_whole(repo, rel, fn, v.value, roots, _seen, root_pred, key_filters) for v in e.values)
     if isinstance(e, ast.BinOp) and isinstance(e.op, ast.Add):
-        return derives_whole(repo, rel, fn, e.left, roots, _seen) or derives_whole(repo, rel, fn, e.right, roots, _seen)
+        return derives_whole(repo, rel, fn, e.left, roots, _seen, root_pred, key_filters) or derives_whole(repo, rel, fn, e.right, roots, _seen, root_pred, key_filters)
     if isinstance(e, ast.Call):
         nm = call_attr(e)
         if isinstance(e.func, ast.Attribute) and nm in WHOLE_METHODS:
-            return derives_whole(repo, rel, fn, e.func.value, roots, _seen)
+            return derives_whole(repo, rel, fn, e.func.value, roots, _seen, root_pred, key_filters)
         if nm in WHOLE_FUNCS or nm == "dumps":
-            return bool(e.args) and derives_whole(repo, rel, fn, e.args[-1] if nm == "cast" else e.args[0], roots, _seen)
+            return bool(e.args) and derives_whole(repo, rel, fn, e.args[-1] if nm == "cast" else e.args[0], roots, _seen, root_pred, key_filters)
         if _local_callee(repo, rel, fn, e) is not None:
-            return bool(e.args) and derives_whole(repo, rel, fn, e.args[0], roots, _seen)
+            return bool(e.args) and derives_whole(repo, rel, fn, e.args[0], roots, _seen, root_pred, key_filters)
         return False
     if isinstance(e, (ast.ListComp, ast.SetComp, ast.GeneratorExp, ast.DictComp)):
         if len(e.generators) != 1:
@@ -382,7 +388,7 @@ def derives_whole(repo: Repo, rel: str, fn: ast.AST, e: Optional[ast.AST], roots
         tnames = {x.id for x in ast.walk(g.target) if isinstance(x, ast.Name)}
         key_var = g.target.elts[0].id if isinstance(g.target, ast.Tuple) and g.target.elts and isinstance(g.target.elts[0], ast.Name) else None
         for t in g.ifs:
-            if not (isinstance(e, ast.DictComp) and key_var is not None and _is_key_filter(t, {key_var})):
+            if not (key_filters and isinstance(e, ast.DictComp) and key_var is not None and _is_key_filter(t, {key_var})):
                 return False
         body = [e.key, e.value] if isinstance(e, ast.DictComp) else [e.elt]
         used = {x.id for b in body for x in ast.walk(b) if isinstance(x, ast.Name)}
@@ -390,7 +396,7 @@ def derives_whole(repo: Repo, rel: str, fn: ast.AST, e: Optional[ast.AST], roots
             return False
         if any(isinstance(x, ast.Subscript) and isinstance(x.value, ast.Name) and x.value.id in tnames for b in body for x in ast.walk(b)):
             return False
-        return derives_whole(repo, rel, fn, g.iter, roots, _seen)
+        return derives_whole(repo, rel, fn, g.iter, roots, _seen, root_pred, key_filters)
     return False
 
 
@@ -398,7 +404,7 @@ def _is_empty_container(v: ast.AST) -> bool:
     return (isinstance(v, (ast.List, ast.Set)) and not v.elts) or (isinstance(v, ast.Dict) and not v.keys) or (isinstance(v, ast.Call) and call_attr(v) in ("list", "dict", "set", "OrderedDict") and not v.args and not v.keywords)
 
 
-def _accumulated_whole(repo: Repo, rel: str, fn: ast.AST, name: str, roots: Set[str], _seen: Set[str]) -> bool:
+def _accumulated_whole(repo: Repo, rel: str, fn: ast.AST, name: str, roots: Set[str], _seen: Set[str], root_pred=None, key_filters: bool = True) -> bool:
     """The local *name* starts empty and is filled, one element per element, in loops over a whole object: every
     store `name[k] = v` / `name.append(v)` / `name.add(v)` sits in a loop whose iterable derives whole, uses every
     loop variable, and is skipped only by key filters of a mapping traversal (judged by the dropped-key rule)."""
@@ -421,14 +427,14 @@ def _accumulated_whole(repo: Repo, rel: str, fn: ast.AST, name: str, roots: Set[
         tnames = {x.id for x in ast.walk(loop.target) if isinstance(x, ast.Name)}
         key_var = loop.target.elts[0].id if isinstance(loop.target, ast.Tuple) and loop.target.elts and isinstance(loop.target.elts[0], ast.Name) else None
         is_map = len(body) == 2 and key_var is not None
-        used = {x.id for b in body for x in ast.walk(b) if isinstance(x, ast.Name)}
+        used = {x.id for b in body for x in flow(fn, b) if isinstance(x, ast.Name)}  # also through locals of the loop body
         if not tnames <= used:
             return False
         conds = [a.test for a in ancestors(st) if isinstance(a, ast.If) and any(a is x for x in ast.walk(loop))]
         conds += [x.test for x in ast.walk(loop) if isinstance(x, ast.If) and any(isinstance(y, ast.Continue) for y in ast.walk(x))]
-        if any(not (is_map and _is_key_filter(t, {key_var})) for t in conds):
+        if any(not (key_filters and is_map and _is_key_filter(t, {key_var})) for t in conds):
             return False
-        if not derives_whole(repo, rel, fn, loop.iter, roots, _seen):
+        if not derives_whole(repo, rel, fn, loop.iter, roots, _seen, root_pred, key_filters):
             return False
     return True
 
@@ -737,6 +743,243 @@ def field_coverage(repo: Repo, R: Report) -> None:
 
 
 # ---------------------------------------------------------------------------------------------------------
+# D1b  the parameter map is serialised value by value, unchanged
+# ---------------------------------------------------------------------------------------------------------
+
+# conversions that map distinct values to one value (numeric narrowing / rounding, text folding, summaries)
+NARROWING_FUNCS = {
+    "float", "int", "round", "bool", "abs", "hash", "len", "type", "complex", "str", "repr", "format", "ascii", "bytes", "ord", "chr",
+    "floor", "ceil", "trunc", "fsum", "sum", "min", "max", "any", "all", "id", "bin", "hex", "oct", "divmod", "pow", "set", "frozenset",
+    "sorted", "reversed", "float16", "float32", "float64", "int8", "int16", "int32", "int64", "Decimal", "Fraction", "isoformat", "basename", "normpath",
+    "lower", "upper", "casefold", "strip", "lstrip", "rstrip", "title", "capitalize", "swapcase", "split", "rsplit", "replace", "join", "encode", "decode",
+    "keys", "values", "get", "pop", "hexdigest", "digest", "sha256", "md5", "sha1", "__class__", "__name__", "__qualname__",
+}
+# calls that hand back their (first) argument / receiver with every element and every value kept
+LOSSLESS_FUNCS = {"dict", "list", "tuple", "deepcopy", "copy", "OrderedDict", "cast"}
+LOSSLESS_METHODS = {"copy", "items", "tolist", "item"}
+
+
+class _Conv:
+    """Verdict on one expression of a converter: ok / lossy (with the offending node) / unknown."""
+
+    def __init__(self) -> None:
+        self.lossy: List[Tuple[ast.AST, str]] = []
+        self.unknown: List[ast.AST] = []
+        self.kept = 0  # places where the value itself (a leaf, an element, a field) is handed on unchanged
+
+
+def _mentions(e: ast.AST, names: Set[str]) -> bool:
+    return any(isinstance(x, ast.Name) and x.id in names for x in ast.walk(e))
+
+
+def _conversion(repo: Repo, rel: str, fn: ast.AST, e: Optional[ast.AST], roots: Set[str], out: _Conv, self_names: Set[str], depth: int = 0, _seen: Optional[Set[str]] = None) -> None:
+    """Judge how *e* is computed from the value(s) named by *roots* inside *fn*: the value itself, a container
+    rebuilt element by element with the same conversion applied to every element, the serialisation of a descriptor
+    object over all its fields - or a conversion that folds distinct values together (recorded in *out.lossy*).
+    *self_names*: names under which the converter calls itself."""
+    _seen = _seen if _seen is not None else set()
+    if e is None or depth > 8:
+        out.unknown.append(e if e is not None else fn)
+        return
+    rec = lambda x, r=roots: _conversion(repo, rel, fn, x, r, out, self_names, depth + 1, _seen)  # noqa: E731
+    if isinstance(e, ast.Name):
+        if e.id in roots:
+            out.kept += 1
+            rebound = [v for v in name_values(fn, e.id)] if e.id in _params_of(fn) else []
+            key = f"{id(fn)}:{e.id}"
+            if rebound and key not in _seen:
+                _seen.add(key)
+                for v in rebound:
+                    rec(v)
+            return
+        key = f"{id(fn)}:{e.id}"
+        if key in _seen:
+            return
+        _seen.add(key)
+        for v in assigned_value(fn, e.id):  # none: a name of the enclosing scope, no function of the value
+            rec(v)
+        return
+    if not _mentions(e, roots) and not any(isinstance(x, ast.Name) and assigned_value(fn, x.id) for x in ast.walk(e)):
+        return  # no function of the value at all (a constant tag)
+    if isinstance(e, (ast.Attribute, ast.Subscript)) and _u(e) in roots:
+        out.kept += 1
+        return
+    if isinstance(e, ast.IfExp):
+        rec(e.body)
+        rec(e.orelse)
+        return
+    if isinstance(e, ast.NamedExpr):
+        rec(e.value)
+        return
+    if isinstance(e, (ast.List, ast.Tuple)):
+        for x in e.elts:
+            rec(x.value if isinstance(x, ast.Starred) else x)
+        return
+    if isinstance(e, ast.Dict):
+        # a mapping written out from the attributes of the value (`{'class': obj.class_path, ...}`): the serialisation
+        # of a descriptor object in place - every annotated field of its class has to be there
+        attrs = {x.attr for x in flow(fn, e) if isinstance(x, ast.Attribute) and isinstance(x.value, ast.Name) and x.value.id in roots}
+        inner_roots = roots
+        if attrs:
+            owners = [(c.name, fs) for c in ast.walk(repo.module(rel).tree) if isinstance(c, ast.ClassDef) for fs in [[st.target.id for st in c.body if isinstance(st, ast.AnnAssign) and isinstance(st.target, ast.Name)]] if fs and attrs <= set(fs)]
+            if len(owners) == 1:
+                cname, fs = owners[0]
+                for f in fs:
+                    if f not in attrs:
+                        out.lossy.append((e, f"field `{f}` of {cname} never reaches its serialised form"))
+                inner_roots = roots | {f"{rt}.{f}" for rt in roots for f in fs}
+        for k, v in zip(e.keys, e.values):
+            if k is not None:
+                rec(k, inner_roots)
+            rec(v, inner_roots)
+        return
+    if isinstance(e, (ast.ListComp, ast.GeneratorExp, ast.DictComp)):
+        if len(e.generators) != 1:
+            out.unknown.append(e)
+            return
+        g = e.generators[0]
+        if g.ifs:
+            out.lossy.append((g.ifs[0], "elements are filtered out"))
+            return
+        it = g.iter
+        # the order of a mapping's items is immaterial (the hashed text is dumped with sorted keys); the order of a list is not
+        while isinstance(it, ast.Call) and ((call_attr(it) in LOSSLESS_FUNCS and it.args) or (isinstance(it.func, ast.Attribute) and call_attr(it) in LOSSLESS_METHODS and not it.args) or (isinstance(e, ast.DictComp) and call_attr(it) == "sorted" and len(it.args) == 1)):
+            it = it.args[-1 if call_attr(it) == "cast" else 0] if it.args else it.func.value  # type: ignore[union-attr]
+        inner = _Conv()
+        _conversion(repo, rel, fn, it, roots, inner, self_names, depth + 1, _seen)
+        if inner.lossy or inner.unknown:
+            out.lossy.extend((n, "the container is not traversed completely and in order: " + w) for n, w in inner.lossy)
+            out.unknown.extend(inner.unknown)
+            return
+        tnames = {x.id for x in ast.walk(g.target) if isinstance(x, ast.Name)}
+        body = [e.key, e.value] if isinstance(e, ast.DictComp) else [e.elt]
+        used = {x.id for b in body for x in ast.walk(b) if isinstance(x, ast.Name)}
+        if not tnames <= used:
+            out.lossy.append((e, f"{sorted(tnames - used)} of every element never reach the result"))
+            return
+        # `for k in m` with `m[k]` in the body: the element of a mapping traversed by key
+        elem_roots = set(tnames)
+        if isinstance(g.target, ast.Name) and isinstance(it, ast.Name):
+            elem_roots.add(f"{it.id}[{g.target.id}]")
+        for b in body:
+            _conversion(repo, rel, fn, b, elem_roots, out, self_names, depth + 1, _seen)
+        return
+    if isinstance(e, ast.Call):
+        nm = call_attr(e)
+        args = list(e.args) + [k.value for k in e.keywords]
+        if isinstance(e.func, ast.Name) and e.func.id in self_names and e.args:
+            rec(e.args[0])
+            return
+        if nm == "map" and len(e.args) == 2 and isinstance(e.args[0], ast.Name) and e.args[0].id in self_names:
+            rec(e.args[1])
+            return
+        if isinstance(e.func, ast.Attribute) and nm in LOSSLESS_METHODS and not e.args:
+            rec(e.func.value)
+            return
+        if nm in LOSSLESS_FUNCS and e.args and not isinstance(e.func, ast.Attribute) or (nm in ("deepcopy", "copy") and e.args):
+            rec(e.args[-1] if nm == "cast" else e.args[0])
+            return
+        if nm in NARROWING_FUNCS:
+            out.lossy.append((e, f"`{_u(e)[:60]}` maps distinct values to one"))
+            return
+        # the serialisation method of a descriptor object: every field of the class reaches the result unchanged
+        if isinstance(e.func, ast.Attribute) and not e.args and not e.keywords and _mentions(e.func.value, roots):
+            meths = [(qn, d) for qn, d in repo.module(rel).defs.items() if isinstance(d, FuncNode) and d.name == nm and "." in qn]
+            if meths:
+                for qn, _d in meths:
+                    _method_covers_fields(repo, rel, qn, out, self_names, depth)
+                return
+        hit = _local_callee(repo, rel, fn, e)
+        if hit is not None and e.args:
+            callee = NF(repo, rel, hit[0])
+            ps = _params_of(callee)
+            passed = {ps[i] for i, a in enumerate(e.args[: len(ps)]) if _mentions(a, roots) or any(isinstance(x, ast.Name) and assigned_value(fn, x.id) for x in ast.walk(a))}
+            for a in e.args:
+                rec(a)
+            _returns_conversion(repo, rel, callee, passed, out, self_names | ({hit[0]} if hit[0] in self_names else set()), depth + 1)
+            return
+        out.unknown.append(e)
+        return
+    if isinstance(e, (ast.BinOp, ast.UnaryOp, ast.Compare, ast.JoinedStr, ast.BoolOp)):
+        out.lossy.append((e, f"`{_u(e)[:60]}` is computed from the value instead of the value itself"))
+        return
+    if isinstance(e, (ast.Subscript, ast.Attribute)):
+        out.lossy.append((e, f"`{_u(e)[:60]}` is only a part / an attribute of the value"))
+        return
+    out.unknown.append(e)
+
+
+def _returns_conversion(repo: Repo, rel: str, fn: ast.AST, roots: Set[str], out: _Conv, self_names: Set[str], depth: int = 0) -> None:
+    rets = [x for x in walk_no_nested(fn) if isinstance(x, ast.Return)]
+    if not rets:
+        out.unknown.append(fn)
+    for r in rets:
+        if r.value is None:
+            out.unknown.append(r)
+        else:
+            _conversion(repo, rel, fn, r.value, roots, out, self_names, depth)
+
+
+def _method_covers_fields(repo: Repo, rel: str, qualname: str, out: _Conv, self_names: Set[str], depth: int) -> None:
+    """`obj.<method>()` of a class of the module: the returned value is built from every annotated field of the class,
+    each through a lossless conversion."""
+    cname, _, _m = qualname.rpartition(".")
+    cdef = repo.module(rel).defs.get(cname)
+    meth = NF(repo, rel, qualname)
+    ps = _params_of(meth)
+    if not isinstance(cdef, ast.ClassDef) or not ps:
+        out.unknown.append(meth)
+        return
+    me = ps[0]
+    fields = [st.target.id for st in cdef.body if isinstance(st, ast.AnnAssign) and isinstance(st.target, ast.Name)]
+    rets = [x.value for x in walk_no_nested(meth) if isinstance(x, ast.Return) and x.value is not None]
+    if not rets or not fields:
+        out.unknown.append(meth)
+        return
+    for rv in rets:
+        fl = flow(meth, rv)
+        for f in fields:
+            if not reads_attr(fl, f, me):
+                out.lossy.append((rv, f"field `{f}` of {cname} never reaches its serialised form"))
+        _conversion(repo, rel, meth, rv, {f"{me}.{f}" for f in fields} | {me}, out, self_names, depth + 1)
+
+
+def params_lossless(repo: Repo, R: Report) -> None:
+    r = R.rule("C05-D1b-params-serialised-unchanged", "the function that turns the effective parameter map into the JSON that is hashed into the node uuid keeps every value: a leaf is returned as it is, a container is rebuilt element by element (unfiltered, in order) with the same conversion, a descriptor object is serialised over all its fields; no value is passed through a conversion that folds distinct values together (numeric narrowing / rounding, text folding, truncation)", 3)
+    bcs = NF(repo, GRAPH, "build_canonical_spec")
+    _uu, objs = _hashed_node_objects(bcs)
+    g = CFG(bcs, may_raise=lambda p: set())
+    gmod = repo.module(GRAPH)
+    targets: Dict[Tuple[str, str], ast.Call] = {}
+    for o in objs:
+        v = _effective_value(bcs, g, o, "params", _enclosing_stmt(bcs, o), 0, repo, GRAPH)
+        if not isinstance(v, ast.Call):
+            continue
+        nm = dotted_name(v.func) or ""
+        hit = repo.resolve_dotted(gmod.imports[nm.split(".")[0]] + nm[len(nm.split(".")[0]):]) if nm.split(".")[0] in gmod.imports else None
+        if hit is None and isinstance(gmod.defs.get(nm), FuncNode):
+            hit = (gmod, gmod.defs[nm])
+        if hit is not None and isinstance(hit[1], FuncNode):
+            targets[(hit[0].rel, qualname_of(hit[1]))] = v
+    if not targets:
+        raise AnalysisError("the converter of the hashed parameter map (descriptor_to_json) could not be resolved")
+    for (rel, qn), call in sorted(targets.items()):
+        conv = NF(repo, rel, qn)
+        ps = _params_of(conv)
+        if not ps:
+            raise AnalysisError(f"{qn}: no parameter")
+        out = _Conv()
+        _returns_conversion(repo, rel, conv, {ps[0]}, out, {conv.name})
+        for node, why in out.lossy:
+            R.violation(r, rel, qn, norm(stmt_of(node))[:110] if parent(node) is not None else _u(node)[:110], f"a parameter value is changed on its way into the node uuid: {why}; two configurations that differ only in such a value (at any depth of the parameter map) get the same node uuid, semantic id and config id", getattr(node, "lineno", conv.lineno))
+        if out.unknown and not out.lossy:
+            raise AnalysisError(f"{qn}: conversion of unknown shape `{_u(out.unknown[0])[:80]}`")
+        if not out.lossy:
+            for _i in range(out.kept):
+                R.ok(r, rel, qn, f"{qn}: leaf / element / descriptor field handed on unchanged", "", conv.lineno)
+
+
+# ---------------------------------------------------------------------------------------------------------
 # D2
 # ---------------------------------------------------------------------------------------------------------
 
@@ -840,6 +1083,15 @@ def sweep_metadata(repo: Repo, R: Report) -> None:
         R.check(v is not None and reads_attr(flow(pm, v), sources[k], cls_p), r, SWEEP, where, f"metadata[{k!r}] <- cls.{sources[k]}", f"the sweep's {k} does not reach the metadata that is hashed: changing it changes no id", pm.lineno)
     R.check(bool(calls_to(flow(pm, keys.get("param_expressions")), "normalize_expression_sig_v1")), r, SWEEP, where, "param_expressions[*].sig = normalize_expression_sig_v1(source)", "expression signatures are not computed from the expression source", pm.lineno)
     R.check(bool(calls_to(flow(pm, keys.get("variables")), "variable_domain_signature")), r, SWEEP, where, "variables[*] = variable_domain_signature(spec)", "variable domains are not summarised by the domain signature", pm.lineno)
+    # ... and every declared variable / every parameter expression gets its entry: the per-name mappings are built
+    # element by element over the complete class attribute, nothing is skipped (the sweep iterates over all declared
+    # variables, referenced by an expression or not)
+    for k in ("variables", "param_expressions"):
+        attr = sources[k]
+        is_root = lambda e, a=attr: reads_attr([e], a, cls_p)  # noqa: E731
+        v = keys.get(k)
+        whole = v is not None and derives_whole(repo, SWEEP, pm, v, set(), None, is_root, False)
+        R.check(whole, r, SWEEP, where, f"metadata[{k!r}] has one entry for every item of cls.{attr}", f"metadata[{k!r}] is built from a part of cls.{attr} only (filtered / sliced / not every item used): a sweep that differs in one of the left-out entries - e.g. the domain of a variable no expression reads, which still multiplies the produced items - keeps all its ids", getattr(v, "lineno", pm.lineno))
     # every generated class publishes its definition (own hook or inherited from another generated class)
     gen = [c for c in ast.walk(create) if isinstance(c, ast.ClassDef)]
     publishing = {c.name for c in gen if any(isinstance(v, ast.Call) and call_attr(v) == bname for v in _values_under_key(c, "preprocessor"))}
@@ -1030,6 +1282,7 @@ def run(repo: Repo, R: Report) -> None:
     )
     R.undecided("hash collisions; equality of expression *values* (C12)")
     field_coverage(repo, R)
+    params_lossless(repo, R)
     sweep_metadata(repo, R)
     positional_and_domains(repo, R)
     # an expression signature that merges expressions of different value makes two different sweeps share an id:
@@ -1040,5 +1293,15 @@ def run(repo: Repo, R: Report) -> None:
     R.rule_prefix = "C05-D4/"
     try:
         c12.run(repo, R)
+    finally:
+        R.rule_prefix = ""
+    # an id that is looked up in a memo / shared table filled by an earlier call is a function of the *earlier*
+    # configuration: whatever the memo key does not cover (a sweep node's uuid does not cover its sweep definition)
+    # stops changing the id.  The C04 rule over the identity slice, re-applied.
+    from . import c04_rest
+
+    R.rule_prefix = "C05-D5/"
+    try:
+        c04_rest.no_process_state(repo, R, c04_rest.identity_slice(repo))
     finally:
         R.rule_prefix = ""
